@@ -436,7 +436,7 @@ int cmdMerge(int argc, char** argv) {
   for (int i = 2; i < argc; ++i) {
     std::string d = readFile(argv[i]);
     size_t n = d.size() / 8, o = all.size(); all.resize(o + n);
-    memcpy(all.data() + o, d.data(), n * 8);
+    if (n) memcpy(all.data() + o, d.data(), n * 8);
   }
   std::sort(all.begin(), all.end());
   all.erase(std::unique(all.begin(), all.end()), all.end());
